@@ -264,7 +264,43 @@ func TestC05Session(t *testing.T) {
 				if len(captured[e]) > 0 && rapid.IntRange(0, 4).Draw(rt, "fromCapture") > 0 {
 					raw = captured[e][rapid.IntRange(0, len(captured[e])-1).Draw(rt, "cap")]
 				}
-				if forge && raw != nil {
+				if forge && rapid.IntRange(0, 2).Draw(rt, "fecShaped") == 0 {
+					// a hostile packet in FEC framing, sealed correctly: sequence id near the
+					// stream's / at the edges, any type, a lying size field, crafted payload
+					var seq uint32
+					switch rapid.IntRange(0, 3).Draw(rt, "fseq") {
+					case 0:
+						seq = uint32(rapid.IntRange(0, 40).Draw(rt, "fseqLow"))
+					case 1:
+						seq = rapid.SampledFrom([]uint32{0x7fffffff, 0x80000000, 0xfffffffe, 0xffffffff, 0xfffffff0}).Draw(rt, "fseqEdge")
+					default:
+						seq = rapid.Uint32().Draw(rt, "fseqAny")
+					}
+					typ := uint16(rapid.SampledFrom([]int{0xf1, 0xf1, 0xf2, 0xf2, 0xf3, 0xf0, 0xf4}).Draw(rt, "ftype"))
+					n := rapid.SampledFrom([]int{0, 1, 2, 4, 6, 22, 24, 26, 60, 1400}).Draw(rt, "flen")
+					rest := make([]byte, n)
+					switch rapid.IntRange(0, 2).Draw(rt, "ffill") {
+					case 1:
+						for i := range rest {
+							rest[i] = byte(rapid.IntRange(0, 255).Draw(rt, "fb"))
+							if i > 40 {
+								break
+							}
+						}
+					case 2:
+						if n >= 2+24 {
+							sg := wire.Segment{Conv: cfg.Conv, Cmd: wire.CmdPush, Sn: uint32(rapid.IntRange(0, 50).Draw(rt, "fsn")), Wnd: 32, Data: make([]byte, n-2-24)}
+							copy(rest[2:], sg.Append(nil))
+						}
+					}
+					if n >= 2 {
+						binary.LittleEndian.PutUint16(rest, uint16(rapid.SampledFrom([]int{0, 1, 2, 3, n - 1, n, n + 1, 1500, 65535}).Draw(rt, "fsize")))
+					}
+					nn := make([]byte, 16)
+					nn[0] = byte(total + 1)
+					raw = p.Crypto.Seal(nn, wire.BuildFECRaw(seq, typ, rest))
+					passed++
+				} else if forge && raw != nil {
 					// open the genuine datagram, mutate the plaintext, seal it again
 					if nonce, plain, err := p.Crypto.Open(raw); err == nil {
 						m := mutate(rt, plain, 1500-p.Crypto.HeaderSize()-p.Crypto.TagSize())
